@@ -60,6 +60,10 @@ def _ev(t, env, cache):
                 return math.pi
             if name == 'sqrt2':
                 return math.sqrt(2)
+            if name == 'inv_pi':
+                return 1 / math.pi
+            if name == 'inv_sqrt2':
+                return 1 / math.sqrt(2)
             if name in env:
                 return env[name]
             raise Unevaluable(name)
